@@ -53,6 +53,8 @@ def prepare(template, data):
         if template == "h06_atoms":
             h06_atoms(False, False, False, False, False, False)
             h06_atoms(True, True, True, True, True, True)
+        elif template == "h06_dup":
+            h06_dup(False, False, False, False, False, False)
         elif template == "h06_kinds":
             global _KFN
             from vf.props.c07 import _fn
@@ -227,6 +229,32 @@ def h06_kinds(b0: bool, b1: bool, b2: bool, b3: bool, b4: bool, b5: bool) -> boo
     return fin(True)
 
 
+def h06_dup(b0: bool, b1: bool, b2: bool, b3: bool, b4: bool, b5: bool) -> bool:
+    """
+    post: _
+    """
+    # f(**{"a": X, "a": Y}) (also what {**defaults, "a": Y} becomes): the parameter receives the LAST entry
+    if excluded(b0=b0, b1=b1, b2=b2, b3=b3, b4=b4, b5=b5):
+        return skip()
+    from pyanalyze.signature import KWARGS
+    from pyanalyze.value import DictIncompleteValue, KVPair
+
+    data = G.case
+    rel = Rel(3, (b0, b1, b2, b3, b4, b5))
+    atoms = [Atom(i, rel) for i in range(3)]
+    i, j = data["first"], data["last"]
+    sig = Signature.make([SigParameter("a", ParameterKind.POSITIONAL_OR_KEYWORD if data["kind"] == 1 else ParameterKind.KEYWORD_ONLY,
+                                       annotation=atoms[0])], atoms[2])
+    d = DictIncompleteValue(dict, [KVPair(KnownValue("a"), atoms[i]), KVPair(KnownValue("a"), atoms[j])])
+    ctx = _CanAssignBasedContext(get_checker())
+    actual = preprocess_args([(Composite(d), KWARGS)], ctx)
+    if actual is None:
+        return fin(False)
+    ret = sig.check_call_preprocessed(actual, ctx)
+    diagnosed = bool(ctx.errors) or ret.is_error
+    return fin(diagnosed == (not rel.accepts(0, j)))
+
+
 def _kinds_cases(tier: str, seed: int) -> List[Case]:
     import zlib
 
@@ -344,6 +372,10 @@ def cases(tier: str, seed: int) -> List[Case]:
                                                   "args": [a0, "omit"], "ret": list(ret)},
                                 timeout=90 if quick else 240, twin=True, vacuous_ok=True))
     out += _kinds_cases(tier, seed)
+    for kind in (1, 3):
+        for i in range(3):
+            for j in range(3):
+                out.append(Case("h06_dup", f"dup:{'a' if kind == 1 else '!a'}<-**{{a:{i},a:{j}}}", {"kind": kind, "first": i, "last": j}, timeout=60, twin=True))
     # real constructors
     for t in REAL_TYPES:
         for k in REAL_ARGS:
